@@ -63,11 +63,20 @@ struct Entry {
 
 class Dedupe {
   public:
+    Dedupe() : seen_zero_(false) {}
+
     bool operator()(const util::StringPiece &line) {
       return (*this)(util::MurmurHashNative(line.data(), line.size(), 1));
     }
 
     bool operator()(uint64_t key) {
+      // The table reserves key 0 for empty buckets and reports it as always present,
+      // so a line whose hash is 0 is tracked separately instead of being dropped.
+      if (key == 0) {
+        bool first = !seen_zero_;
+        seen_zero_ = true;
+        return first;
+      }
       Entry entry;
       entry.key = key;
       Table::MutableIterator it;
@@ -77,6 +86,7 @@ class Dedupe {
   private:
     typedef util::AutoProbing<Entry, util::IdentityHash> Table;
     Table table_;
+    bool seen_zero_;
 };
 
 class FieldDedupe : public Dedupe {
